@@ -7,7 +7,10 @@
 // the implementation did.  M: value, options, observed events and observed result are written as
 // Gallina terms; coq/Corr/CorrC10.v recomputes events and result with the model.  Values that travel as an
 // instance of their meta type (parameterized types over user types, spec kind ptype) are written with ALL
-// their attributes: the trailing-default trimming and the way back are the model's (Model/SerAttrs.v).
+// their attributes: the trailing-default trimming and the way back are the model's (Model/SerAttrs.v).  Object
+// instances (built by the constructor of an Object type, or px.Wrap of a Go struct registered through the Reflector,
+// gostruct.go) are written with ALL their attributes as well: which of them the init hash holds and what InitFromHash
+// of the consumer rebuilds (fill, trim again, set every field) are the model's (Model/SerStruct.v).
 package main
 
 import (
@@ -77,15 +80,18 @@ func (ck *checker) classify(clause, what string, spec *Spec, cfg Config) {
 func newCasesFile() *lib.CasesFile {
 	// a case = the run (value, options, observed events and result) and, for a value of the attribute route,
 	// all its attributes with those of the deserialized value (Corr.CorrC10 xcase)
-	return &lib.CasesFile{Imports: []string{"Model.Base", "Model.Ser", "Model.SerAttrs", "Corr.CorrC10"}, Typ: "xcase",
-		Obligations: map[string]string{"ser_model": "ser_mismatches cases", "attrs_model": "attrs_mismatches cases"}}
+	return &lib.CasesFile{Imports: []string{"Model.Base", "Model.Ser", "Model.SerAttrs", "Model.SerStruct", "Corr.CorrC10"}, Typ: "xcase",
+		Obligations: map[string]string{"ser_model": "ser_mismatches cases", "attrs_model": "attrs_mismatches cases",
+			"struct_model": "struct_mismatches cases"}}
 }
 
 // acaseGallina: (required count, all attributes of the value with their default flags, the declared
 // defaults, what the attributes of the deserialized value are)
-func acaseGallina(mv *MV, obs string) string {
+func acaseGallina(mv *MV, obs string) string { return xcaseGallina("mkacase", mv, obs) }
+
+func xcaseGallina(ctor string, mv *MV, obs string) string {
 	var b strings.Builder
-	fmt.Fprintf(&b, "(mkacase %d%%nat ", mv.Req)
+	fmt.Fprintf(&b, "(%s %d%%nat ", ctor, mv.Req)
 	mv.attrList(&b)
 	b.WriteString(" ")
 	mv.declList(&b)
@@ -141,6 +147,10 @@ func (ck *checker) checkValue(root px.Context, spec *Spec, registered bool, cfgs
 		var env *typeEnv
 		if spec.hasUserTypes() {
 			env = newTypeEnv(ctxS, registered)
+			judgeCtx = ctxS
+			if registered && spec.hasGoStruct() {
+				addGoStructs(ctxS)
+			}
 		}
 		var v px.Value
 		func() {
@@ -235,7 +245,20 @@ func (ck *checker) checkValue(root px.Context, spec *Spec, registered bool, cfgs
 						ac = "(Some " + acaseGallina(mv, obs) + ")"
 						res.Count("attribute-route.cases-in-coq")
 					}
-					ck.file(family).Add("X "+caseGallina(mv, cfg, out, resM)+" "+ac, in)
+					line := "X " + caseGallina(mv, cfg, out, resM) + " " + ac
+					// object instances: all attributes of the first instance and of what stands at its place in the
+					// deserialized value go to the model (init hash / InitFromHash of Model/SerStruct.v)
+					if inst, back := firstInstance(mv, resM); ac == "None" && inst != nil && cfg.Rich && resM != nil {
+						obs := "SOther"
+						if back != nil && back.C == "VObjS" {
+							var b strings.Builder
+							gList(&b, len(back.E), "@pvalue str", func(i int) { back.E[i].pe(&b) })
+							obs = "(SObs " + b.String() + ")"
+						}
+						line = "XS " + caseGallina(mv, cfg, out, resM) + " " + xcaseGallina("mkscase", inst, obs)
+						res.Count("object-instance.cases-in-coq")
+					}
+					ck.file(family).Add(line, in)
 					ck.coqCfgs[cfg] = true
 				}
 			}
@@ -327,7 +350,7 @@ func main() {
 			ck.run(root, lib.NewRng(cfg.Seed))
 		}
 	})
-	names := []string{"corpus", "exhaustive", "random_a", "random_b", "random_c", "random_d", "reentrant", "replay"}
+	names := []string{"corpus", "exhaustive", "structs", "random_a", "random_b", "random_c", "random_d", "reentrant", "replay"}
 	for _, n := range names {
 		if f, ok := ck.files[n]; ok {
 			res.CorrFiles = append(res.CorrFiles, f.WriteTo(cfg.Out, "cases_"+n))
@@ -426,6 +449,26 @@ func (ck *checker) run(root px.Context, rng *lib.Rng) {
 		}
 	}
 	ck.res.Extra["attribute_family_values"] = na
+	// 1d. bounded-exhaustive family of object instances backed by Go structs (gostruct.go): every placement of
+	// default-valued attributes, alone and nested/shared; 12 configurations each (all of them for every sixteenth
+	// value); one rich-data run per value goes to the model
+	ns := 0
+	for _, s := range structFamily() {
+		ns++
+		sel := cfgs
+		if !thorough && ns%16 != 0 {
+			sel = nil
+			for i, c := range cfgs {
+				if (i+ns)%16 == 0 {
+					sel = append(sel, c)
+				}
+			}
+		}
+		for _, reg := range scenarios(s) {
+			ck.checkValue(root, s, reg, sel, pickRich(rng.Fork(), sel), "structs", false)
+		}
+	}
+	ck.res.Extra["struct_family_values"] = ns
 	// 2. bounded-exhaustive sharing families; in the quick tier the longer arrays run a rotating quarter
 	// of the matrix each (every configuration is met by a quarter of the values)
 	maxLen := 3
